@@ -102,3 +102,22 @@ def close(observed, value, err, rtol, atol):
     if not np.isfinite(observed):
         return False
     return abs(observed - value) <= rtol * abs(value) + atol + 10.0 * err
+
+
+def integrate_general(g, a, b, breakpoints=(), decay=None):
+    """integral over [a, b] of a real integrand g(x) (already including the density), x != 0, split at 0 and at the
+    break points; ``decay`` > 0: g(x) = O(|x|^(decay - 1)) near 0 (used for the part of [0, 1e-100] not integrated)."""
+    if a >= b:
+        return 0.0, 0.0
+    total, err = 0.0, 0.0
+    if b > 0:
+        lo = max(a, 0.0)
+        v, e = _half_line(lambda x: g(x), lo, b, 0, [c for c in breakpoints if c > 0], decay)
+        total += v
+        err += e
+    if a < 0:
+        hi = min(b, 0.0)
+        v, e = _half_line(lambda x: g(-x), -hi, -a, 0, [-c for c in breakpoints if c < 0], decay)
+        total += v
+        err += e
+    return total, err
